@@ -1800,7 +1800,16 @@ class Interp:
             ls = [x for x in (T.find_ops(newv, "loopsum") + T.find_ops(newv, "loopsum_brk"))
                   if len(x.args) == 3 and x.args[1] == lv] if is_term(newv) else []
             if is_term(newv) and len(ls) == 1 and is_term(pre[n]) and sp.expand(newv - pre[n] - ls[0]) == 0:
-                subs[s] = pre[n] + op("loopprefix", ls[0].args[0], lv)
+                inc_ = ls[0].args[0]
+                loop_dep = {lv} | set(carried_syms.values())
+                if not (inc_.free_symbols & loop_dep) and not has_break and fname(itt) in ("range", "prange") and len(itt.args) in (1, 2):
+                    # a constant step: the value at the start of pass lv is start + step * (number of passes before it)
+                    first_ = itt.args[0] if len(itt.args) == 2 else sp.Integer(0)
+                    subs[s] = pre[n] + inc_ * (lv - first_)
+                elif not (inc_.free_symbols & loop_dep) and not has_break and fname(itt) not in ("range", "prange", "zip", "enumerate", "dict_items"):
+                    subs[s] = pre[n] + inc_ * lv        # iteration over a sequence: lv is the position
+                else:
+                    subs[s] = pre[n] + op("loopprefix", inc_, lv)
             elif is_term(newv):
                 subs[s] = op("loopstate", to_term(pre[n]), lv, Str(n))
         if subs:
